@@ -66,13 +66,15 @@ def _positive_conjunct(cond, D):
 
 # (file, function, divisor) -> (reason, optional precondition checker name)
 TABLE = {
-    ("dense.c", "matrix_ass_subscr", "SP_NROWS(val)"):
+    ("dense.c", "matrix_ass_subscr_noalias", "SP_NROWS(val)"):
         ("spmatrix_getitem_i(val, i, ..) is only reached inside `for (i = 0; i < lgt; ..)` loops over the elements of val: a sparse matrix "
          "with an element has SP_NROWS > 0", "inside_loop"),
     ("sparse.c", "spmatrix_subscr", "SP_NROWS(self)"):
         ("the linear index was range-checked against SP_LGT(self) (OUT_RNG / create_indexlist): an index in range implies SP_LGT > 0", None),
     ("sparse.c", "spmatrix_ass_subscr", "SP_NROWS(self)"):
-        ("the linear indices come from a range-checked index list (create_indexlist against SP_LGT(self)): a valid index implies SP_LGT > 0", None),
+        ("the linear indices come from a range-checked index list (create_indexlist against SP_LGT(self)): a valid index implies SP_LGT > 0 - "
+         "provided the list is not empty: the function returns before the merge when lgtI == 0 (round 5: the entry was recorded without "
+         "that precondition and A = spmatrix([],[],[],(0,3)); A[:] = 1.0 raised SIGFPE)", "range_checked_or_nonempty:lgtI"),
     ("sparse.c", "spmatrix_set_size", "m"):
         ("the division is inside the loop over the stored entries; m == 0 forces m*n == 0 == old size (checked just before), "
          "and a matrix with zero elements stores no entries", "inside_loop"),
@@ -293,6 +295,16 @@ def _check_pre(c, sim, par, fnode, n, pre):
             if x.get("k") in ("ForStmt", "WhileStmt"):
                 return None
         return "the division is no longer inside a loop over the stored elements"
+    if pre.startswith("range_checked_or_nonempty:"):
+        v = pre.split(":", 1)[1]
+        b = n.get("b")
+        txt = cx.strip_pp(c.text(fnode["b"], b)) if b is not None else ""
+        if re.search(r"<\s*-\s*SP_LGT\s*\(\s*self\s*\)\s*\|\|\s*\w+\s*>=\s*SP_LGT\s*\(\s*self\s*\)", txt) and \
+                not re.search(r"create_indexlist", txt):
+            return None                       # a scalar index that passed its range test: SP_LGT > 0
+        if re.search(r"\bif\s*\(\s*%s\s*==\s*0\s*\)\s*\{(?:[^{}]|\{[^{}]*\})*\breturn\b[^{}]*\}" % re.escape(v), txt):
+            return None                       # index list known to be non-empty
+        return "neither a range-checked scalar index nor an `if (%s == 0) return` precedes the division" % v
     if pre.startswith("returns_when_zero:"):
         vs = pre.split(":", 1)[1].split(",")
         b = n.get("b")
